@@ -17,106 +17,78 @@ open Plug
 /-- After ANY sequence of registration operations (as coded): (1) no list that a stage iterates
     contains two plugins of the same name (the unique-name check of `refresh`); (2) container 0 is
     the global one, with empty middle, and its list is `left ++ right` of the *current* global
-    plugins. By induction over the operation list. -/
+    plugins; (3) every container's `middle` slice holds exactly the plugins registered along its
+    route — groups, then handler — whatever was registered on sibling groups afterwards
+    (`cloneAndAppendMiddle` copies); (4) EVERY container — at any nesting depth — is up to date:
+    its list is `left ++ chain ++ right` with the current global plugins (`refreshTree` walks the
+    whole tree). By induction over the operation list. -/
 theorem C09_refresh (ops : List Op) (P : Peer) (h : build ops = some P) : SInv P :=
   sinv_run ops sinv_new h
 
-/-- `cloneAndAppendMiddle`, as coded: a new group / handler container gets what is *currently
-    visible* through the parent's `middle` slice, followed by its own plugins, between the current
-    global-left and global-right plugins. When no slot of the parent's view has been overwritten
-    (see `C09_alias_witness`) this is, by induction along the route, `left ++ groups ++ handler ++
-    right` at registration time. -/
-theorem C09_refresh_clone (P P' : Peer) (i k : Nat) (ps : List Plugin) (h : clone P i ps = some (P', k)) :
-    (contAt P' k).middle = (contAt P i).middle ++ ps ∧
+/-- (4) of `C09_refresh`, spelled out — the statement the property text relies on ("each
+    registered plugin's hooks fire", "only plugins on the global container or on the matched
+    route's chain see the message"): after ANY operation history, in any order (global plugins
+    appended or removed before, between or after routing; groups nested to any depth), EVERY
+    container's list is the current global-left plugins, then the plugins registered along the
+    route (groups, then handler), then the current global-right plugins. -/
+theorem C09_refresh_fresh (ops : List Op) (P : Peer) (h : build ops = some P) : Fresh P :=
+  (C09_refresh ops P h).fresh
+
+/-- (3) of `C09_refresh`, spelled out: in every reachable configuration every container's
+    `middle` is its route's chain. -/
+theorem C09_refresh_chain (ops : List Op) (P : Peer) (h : build ops = some P) (i : Nat) (c : Cont)
+    (hc : P.conts[i]? = some c) : c.middle = c.chain :=
+  (C09_refresh ops P h).clean i c hc
+
+/-- `cloneAndAppendMiddle` in any reachable configuration: the new group / handler container
+    gets the parent's chain followed by its own plugins, and the list its stages iterate is that
+    chain between the current global-left and global-right plugins: `left ++ groups ++ handler ++
+    right`. -/
+theorem C09_refresh_clone (ops : List Op) (P P' : Peer) (h0 : build ops = some P) (i k : Nat)
+    (ps : List Plugin) (h : clone P i ps = some (P', k)) :
     (contAt P' k).chain = (contAt P i).chain ++ ps ∧
-    allOf P' k = P.left ++ ((contAt P i).middle ++ ps) ++ P.right := by
-  obtain ⟨c, g, e, hk, _, _, _, hm, hc, _, ha, _⟩ := clone_spec h
+    (contAt P' k).middle = (contAt P' k).chain ∧
+    allOf P' k = P.left ++ (contAt P' k).chain ++ P.right := by
+  have hP := C09_refresh ops P h0
+  obtain ⟨c, e, hk, hm, hc, ha, _⟩ := clone_spec h
   subst e; subst hk
-  have : (P.conts.map g ++ [c])[P.conts.length]? = some c := by
-    have hl : (P.conts.map g).length ≤ P.conts.length := by simp
-    rw [List.getElem?_append_right hl]; simp
+  have : (P.conts ++ [c])[P.conts.length]? = some c := by simp
   simp only [allOf, contAt, List.getD, this, Option.getD_some]
-  exact ⟨hm, hc, ha⟩
+  have hcl := hP.contAt_clean i
+  unfold contAt at hcl hm hc ha
+  simp only [List.getD] at hcl hm hc ha
+  exact ⟨hc, by rw [hm, hc, hcl], by rw [ha, hc, hcl]⟩
 
-/-- As coded, a container two or more clones below the global one (a handler or group inside a
-    sub-group) is never refreshed again: whatever operation follows, the list its stages iterate
-    stays what it was at registration time. This is the one-level `refreshTree`. -/
-theorem C09_refresh_frozen (P P' : Peer) (o : Op) (h : apply P o = some P') (i : Nat) (c : Cont)
-    (hc : P.conts[i]? = some c) (hd : 1 < c.depth) :
-    ∃ c', P'.conts[i]? = some c' ∧ c'.all = c.all ∧ c'.depth = c.depth :=
-  frozen_apply o h i c hc (by omega)
-
-/- Full-strength statement wanted by the property ("each registered plugin's hooks fire", "only
-   plugins on the global container or on the matched route's chain see the message"):
-
-     theorem C09_refresh_full (ops : List Op) (P : Peer) (h : build ops = some P) : Fresh P
-
-   i.e. EVERY container's list is `left ++ chain ++ right`: the current global plugins around the
-   plugins registered along the route (groups, then handler). It is FALSE for the code as it is,
-   for two independent reasons: `C09_refresh_witness` (one-level refreshTree) and
-   `C09_alias_witness` (append aliasing between sibling sub-groups). Proved below for histories in
-   which neither can happen. -/
-
-/-- Partial: if all AppendLeft/AppendRight/Remove operations come before all routing operations,
-    sub-groups are created directly under the root router only, and no registration passes more
-    than 16 plugins, then every container's list is `left ++ groups ++ handler ++ right`, and no
-    container's view of its `middle` slice has been overwritten.
-    Missing for the full statement: propagation of `refresh` below the first level, and a copy
-    instead of `append` on the parent's slice in `cloneAndAppendMiddle`. -/
-theorem C09_refresh_partial (gs rs : List Op) (P : Peer)
-    (hg : ∀ o ∈ gs, o.isGlobal = true) (hr : ∀ o ∈ rs, o.small = true)
-    (h : build (gs ++ rs) = some P) :
-    Fresh P ∧ ∀ (i : Nat) (c : Cont), P.conts[i]? = some c → c.middle = c.chain := by
-  unfold build at h
-  rw [run_append] at h
-  cases h1 : run Peer.new gs with
-  | none => simp [h1] at h
-  | some Q =>
-    simp [h1] at h
-    have hS := sinv_run gs sinv_new h1
-    have hR := rinv_run rs hr hS (rinv_of_allRoot hS (allRoot_run_global gs hg allRoot_new h1)) h
-    exact ⟨hR.fresh, hR.clean⟩
-
-example : (∀ o ∈ [Op.appendLeft [⟨1, 65535⟩]], o.isGlobal = true) ∧
-    (∀ o ∈ [Op.subRoute 0 [⟨2, 768⟩], Op.routeCall 1 0 [⟨3, 512⟩]], o.small = true) ∧
-    (build ([Op.appendLeft [⟨1, 65535⟩]] ++ [Op.subRoute 0 [⟨2, 768⟩], Op.routeCall 1 0 [⟨3, 512⟩]])).isSome = true := by
-  decide
-
-/-- the configuration of the first finding: a group, a handler inside it, then a global plugin. -/
-def lateOps : List Op :=
-  [.subRoute 0 [], .routeCall 1 0 [], .routeCall 0 1 [], .appendRight [⟨5, 65535⟩]]
-
-/-- Witness (genuine defect, sig `c09:late-global-plugin-not-propagated`): after
-    `g := peer.SubRoute("g"); g.RouteCallFunc(h0); peer.RouteCallFunc(h1);
-    peer.PluginContainer().AppendRight(p5)` the handler registered on the root router sees `p5`,
-    the handler inside the group does not: its list is still empty. -/
-theorem C09_refresh_witness :
-    ∃ P, build lateOps = some P ∧ P.right = [⟨5, 65535⟩] ∧
-      allOf P 3 = [⟨5, 65535⟩] ∧ allOf P 2 = [] ∧ ¬ Fresh P := by
-  refine ⟨_, rfl, rfl, rfl, rfl, ?_⟩
-  intro hF
-  have := hF 2 _ rfl
-  revert this
-  decide
-
-/-- the configuration of the third finding: three nested groups g1 ⊃ g2 ⊃ g3 with plugins
-    [p1,p2], [p3], [p4]; a sibling g4 of g3 with [p5]; then a handler registered in g3. -/
+/-- three nested groups g1 ⊃ g2 ⊃ g3 with plugins [p1,p2], [p3], [p4]; a sibling g4 of g3 with
+    [p5]; then a handler registered in g3 (the shape on which sibling groups used to overwrite
+    each other's plugins, sig `c09:sibling-group-plugin-aliasing`). -/
 def aliasOps : List Op :=
   [.subRoute 0 [⟨1, 65535⟩, ⟨2, 65535⟩], .subRoute 1 [⟨3, 65535⟩], .subRoute 2 [⟨4, 65535⟩],
    .subRoute 2 [⟨5, 65535⟩], .routeCall 3 0 []]
 
-/-- Witness (genuine defect, sig `c09:sibling-group-plugin-aliasing`): g2's `middle` slice has
-    length 3 and capacity 4, so `append` writes g3's `p4` and then g4's `p5` into the same array
-    slot; g3's slice now shows `p5`. The handler registered in g3 afterwards gets
-    `[p1,p2,p3,p5]`: `p4` — registered on its own group — never sees its messages, and `p5` — a
-    plugin of a *different* group — does (and can veto them). -/
-theorem C09_alias_witness :
-    ∃ P, build aliasOps = some P ∧ getCall P 0 = some 5 ∧
-      (contAt P 5).chain = [⟨1, 65535⟩, ⟨2, 65535⟩, ⟨3, 65535⟩, ⟨4, 65535⟩] ∧
-      allOf P 5 = [⟨1, 65535⟩, ⟨2, 65535⟩, ⟨3, 65535⟩, ⟨5, 65535⟩] ∧
-      (4, Stage.postReadCallBody) ∉ calleeHooks (callee P (fun _ _ => 0) 0 0) ∧
-      (5, Stage.postReadCallBody) ∈ calleeHooks (callee P (fun _ _ => 0) 0 0) ∧
-      (callee P (fun n s => if n = 5 ∧ s = .postReadCallBody then 1509 else 0) 0 0).reply = some 1509 := by
+/-- non-vacuity of `C09_refresh_clone`, on the former aliasing shape: the handler registered in
+    g3 after its sibling g4 gets `[p1,p2,p3,p4]`, and `p4` — not `p5` — sees its messages. -/
+example : ∃ P P', build aliasOps.dropLast = some P ∧ clone P (groupCont P 3) [] = some (P', 5) ∧
+    allOf P' 5 = [⟨1, 65535⟩, ⟨2, 65535⟩, ⟨3, 65535⟩, ⟨4, 65535⟩] := ⟨_, _, rfl, rfl, rfl⟩
+
+example : ∃ P, build aliasOps = some P ∧ getCall P 0 = some 5 ∧
+    (4, Stage.postReadCallBody) ∈ calleeHooks (callee P (fun _ _ => 0) 0 0) ∧
+    (5, Stage.postReadCallBody) ∉ calleeHooks (callee P (fun _ _ => 0) 0 0) := by
+  refine ⟨_, rfl, rfl, ?_, ?_⟩ <;> decide
+
+/-- a group, a handler inside it, a handler on the root router, then a global plugin (the shape of
+    the former finding `c09:late-global-plugin-not-propagated`). -/
+def lateOps : List Op :=
+  [.subRoute 0 [], .routeCall 1 0 [], .routeCall 0 1 [], .appendRight [⟨5, 65535⟩]]
+
+/-- on `lateOps` both handlers — the one on the root router and the one inside the group — see
+    the late global plugin `p5`; its body-stage hook fires for the handler inside the group and its
+    veto there stops the handler. -/
+example : ∃ P, build lateOps = some P ∧ P.right = [⟨5, 65535⟩] ∧
+    allOf P 3 = [⟨5, 65535⟩] ∧ allOf P 2 = [⟨5, 65535⟩] ∧
+    (5, Stage.postReadCallBody) ∈ (callee P (fun _ _ => 0) 0 0).pre ∧
+    (callee P (fun n s => if n = 5 ∧ s = .postReadCallBody then 1509 else 0) 0 0).invoked = false ∧
+    (callee P (fun n s => if n = 5 ∧ s = .postReadCallBody then 1509 else 0) 0 0).reply = some 1509 := by
   refine ⟨_, rfl, rfl, rfl, rfl, ?_, ?_, ?_⟩ <;> decide
 
 /-! ### C09_sorted / C09_nodup — order and at-most-once -/
@@ -209,10 +181,10 @@ theorem C09_sorted_reader (ops : List Op) (P : Peer) (h : build ops = some P) (V
 
 /-! ### C09_scope — who sees the message -/
 
-/-- As coded, for every configuration: a hook that fires for a received CALL belongs to a
-    plugin in the global container's list or in the list of the matched route's handler
-    container (the unknown-call handler's if that matched; only the global list if nothing did). -/
-theorem C09_scope (P : Peer) (V : Verd) (id : Nat) (hs : Int) :
+/-- For every peer state: a hook that fires for a received CALL belongs to a plugin in the
+    global container's list or in the list of the matched route's handler container (the
+    unknown-call handler's if that matched; only the global list if nothing did). -/
+theorem C09_scope_lists (P : Peer) (V : Verd) (id : Nat) (hs : Int) :
     ∀ f ∈ calleeHooks (callee P V id hs),
       f.1 ∈ names (globalAll P) ∨ f.1 ∈ names (allOf P (callCont P id)) := by
   have hpre : ∀ f ∈ (runSteps V (calleeSteps P id)).1,
@@ -251,20 +223,14 @@ theorem C09_scope (P : Peer) (V : Verd) (id : Nat) (hs : Int) :
     · simp only [List.mem_append] at hf; exact hf.elim (hpre f) (hpost f)
     · split at hf <;> (simp only [List.mem_append] at hf; exact hf.elim (hpre f) (hpost f))
 
-/- Full-strength statement wanted by the property:
-
-     theorem C09_scope_full (ops) (P) (h : build ops = some P) (V id hs) :
-       ∀ f ∈ calleeHooks (callee P V id hs),
-         f.1 ∈ names (P.left ++ (contAt P (callCont P id)).chain ++ P.right)
-
-   ("only plugins on the global container or on the matched route's chain see the message",
-   with the global container as it is NOW). FALSE as coded — `C09_scope_witness`. -/
-
-/-- Partial: when the containers are fresh (e.g. all global operations precede routing,
-    `C09_refresh_partial`), a hook that fires belongs to a current global plugin or to a plugin of
-    the matched route's chain. -/
-theorem C09_scope_partial (ops : List Op) (P : Peer) (h : build ops = some P) (hF : Fresh P)
-    (V : Verd) (id : Nat) (hs : Int) :
+/-- "Only plugins on the global container or on the matched route's chain see the message", with
+    the global container as it is NOW: for every reachable configuration, every verdict
+    assignment and every route, a hook that fires for a received CALL belongs to a current
+    global-left plugin, a plugin registered along the matched route (groups, then handler; the
+    unknown-call handler's plugins if that matched; none if nothing did), or a current
+    global-right plugin. In particular a plugin that was `Remove`d, and a plugin of a sibling
+    group, never sees the message. -/
+theorem C09_scope (ops : List Op) (P : Peer) (h : build ops = some P) (V : Verd) (id : Nat) (hs : Int) :
     ∀ f ∈ calleeHooks (callee P V id hs),
       f.1 ∈ names (P.left ++ (contAt P (callCont P id)).chain ++ P.right) := by
   have hP := C09_refresh ops P h
@@ -274,8 +240,8 @@ theorem C09_scope_partial (ops : List Op) (P : Peer) (h : build ops = some P) (h
     unfold allOf contAt
     cases hc : P.conts[callCont P id]? with
     | none => right; simp [List.getD, hc]
-    | some c => left; have := hF _ c hc; simp [List.getD, hc, this]
-  rcases C09_scope P V id hs f hf with h1 | h1
+    | some c => left; have := hP.fresh _ c hc; simp [List.getD, hc, this]
+  rcases C09_scope_lists P V id hs f hf with h1 | h1
   · rw [hP.globalAll_eq] at h1
     simp [names] at h1 ⊢
     rcases h1 with ⟨p, hp, e⟩ | ⟨p, hp, e⟩
@@ -285,54 +251,42 @@ theorem C09_scope_partial (ops : List Op) (P : Peer) (h : build ops = some P) (h
     · rw [e] at h1; exact h1
     · rw [e] at h1; simp [names] at h1
 
-/-- non-vacuity of the `Fresh` hypothesis of the `_partial` theorems: global, group and handler
-    plugins, handler two clones below the global container. -/
-example : ∃ P, build ([Op.appendLeft [⟨1, 65535⟩]] ++ [Op.subRoute 0 [⟨2, 768⟩], Op.routeCall 1 0 [⟨3, 512⟩]]) = some P ∧
-    Fresh P ∧ getCall P 0 = some 2 ∧ 2 < P.conts.length :=
-  ⟨_, rfl, (C09_refresh_partial [Op.appendLeft [⟨1, 65535⟩]] [Op.subRoute 0 [⟨2, 768⟩], Op.routeCall 1 0 [⟨3, 512⟩]] _
-    (by decide) (by decide) rfl).1, rfl, by decide⟩
-
-/-- the configuration of the second finding: a global plugin, a handler inside a group, Remove. -/
+/-- a global plugin, a handler inside a group, then `Remove` of the global plugin (the shape of
+    the former finding `c09:removed-global-plugin-still-fires`). -/
 def removeOps : List Op :=
   [.appendLeft [⟨1, 65535⟩], .subRoute 0 [], .routeCall 1 0 [], .remove 1]
 
-/-- Witness (genuine defect, sig `c09:removed-global-plugin-still-fires`): after
-    `NewPeer(cfg, p1); g := peer.SubRoute("g"); g.RouteCallFunc(h0);
-    peer.PluginContainer().Remove("p1")`, `p1` is on no container any more, yet its body-stage
-    hooks still fire for `h0` — and its veto still rejects the call. -/
-theorem C09_scope_witness :
-    ∃ P, build removeOps = some P ∧ P.left = [] ∧ P.right = [] ∧ (contAt P (callCont P 0)).chain = [] ∧
-      (1, Stage.preReadCallBody) ∈ calleeHooks (callee P (fun _ _ => 0) 0 0) ∧
-      (callee P (fun n s => if n = 1 ∧ s = .postReadCallBody then 1109 else 0) 0 0).reply = some 1109 := by
-  refine ⟨_, rfl, rfl, rfl, rfl, ?_, ?_⟩ <;> decide
+/-- non-vacuity of `C09_scope` on that shape: after the `Remove`, `p1` is on no container, fires
+    for no stage of a CALL to the handler inside the group, and its scripted veto changes nothing. -/
+example : ∃ P, build removeOps = some P ∧ P.left = [] ∧ P.right = [] ∧ getCall P 0 = some 2 ∧
+    (contAt P (callCont P 0)).chain = [] ∧
+    calleeHooks (callee P (fun _ _ => 0) 0 0) = [] ∧
+    (callee P (fun n s => if n = 1 ∧ s = .postReadCallBody then 1109 else 0) 0 0).reply = some 0 := by
+  refine ⟨_, rfl, rfl, rfl, rfl, rfl, ?_, ?_⟩ <;> decide
+
+example : ∃ P, build ([Op.appendLeft [⟨1, 65535⟩]] ++ [Op.subRoute 0 [⟨2, 768⟩], Op.routeCall 1 0 [⟨3, 512⟩]]) = some P ∧
+    getCall P 0 = some 2 ∧ (callee P (fun _ _ => 0) 0 0).pre =
+      [(1, .preReadHeader), (1, .postReadCallHeader), (1, .preReadCallBody), (2, .preReadCallBody),
+       (1, .postReadCallBody), (2, .postReadCallBody), (3, .postReadCallBody)] := by
+  refine ⟨_, rfl, rfl, ?_⟩; decide
 
 /-! ### completeness: "each registered plugin's hooks fire" -/
 
-/- Full-strength statement wanted by the property:
-
-     theorem C09_complete_full (ops) (P) (h : build ops = some P) (V) (hV : ∀ n s, V n s = 0) (id k hs)
-       (hk : getCall P id = some k) (p) (hp : p ∈ P.left ++ (contAt P k).chain ++ P.right)
-       (s) (hs' : s = .preReadCallBody ∨ s = .postReadCallBody) (hi : p.impl s = true) :
-       (p.name, s) ∈ (callee P V id hs).pre
-
-   FALSE as coded — `C09_complete_witness`. -/
-
-/-- Partial: in a fresh configuration with OK verdicts, every plugin of
-    `left ++ groups ++ handler ++ right` that implements a body stage fires at it, and the handler
-    is invoked. Missing for the full statement: `refresh` below the first level. -/
-theorem C09_complete_partial (ops : List Op) (P : Peer) (_h : build ops = some P) (hF : Fresh P)
+/-- "Each registered plugin's hooks fire": for every reachable configuration and every route
+    bound to a handler, when nobody vetoes, every plugin of `left ++ groups ++ handler ++ right` —
+    the CURRENT global plugins, however late they were appended, and the plugins registered along
+    the route, however deeply nested — that implements a body stage fires at it, and the handler
+    is invoked. -/
+theorem C09_complete (ops : List Op) (P : Peer) (h : build ops = some P)
     (V : Verd) (hV : ∀ n s, V n s = 0) (id k : Nat) (hs : Int) (hk : getCall P id = some k)
-    (hlt : k < P.conts.length)
     (p : Plugin) (hp : p ∈ P.left ++ (contAt P k).chain ++ P.right)
     (s : Stage) (hs' : s = .preReadCallBody ∨ s = .postReadCallBody) (hi : p.impl s = true) :
     (p.name, s) ∈ (callee P V id hs).pre ∧ (callee P V id hs).invoked = true := by
+  have hP := C09_refresh ops P h
+  have hT : TInv P := tinv_run ops tinv_new h
   have ok : ∀ s C, runStage V s C = ((C.filter (·.impl s)).map (fun p => (p.name, s)), 0) :=
     fun s C => runStage_ok_all V s C (fun q _ => hV q.name s)
-  have hall : allOf P k = P.left ++ (contAt P k).chain ++ P.right := by
-    unfold allOf contAt
-    have : P.conts[k]? = some P.conts[k] := List.getElem?_eq_getElem hlt
-    have e := hF k _ this
-    simp [List.getD, this, e]
+  have hall : allOf P k = P.left ++ (contAt P k).chain ++ P.right := hP.allOf_eq (hT.getCall_lt hk)
   have hmem : (p.name, s) ∈ (runStage V s (allOf P k)).1 := by
     rw [ok]
     exact List.mem_map.2 ⟨p, List.mem_filter.2 ⟨by rw [hall]; exact hp, by simpa using hi⟩, rfl⟩
@@ -345,20 +299,12 @@ theorem C09_complete_partial (ops : List Op) (P : Peer) (_h : build ops = some P
   · exact Or.inr (Or.inr (Or.inl hmem))
   · exact Or.inr (Or.inr (Or.inr hmem))
 
-/-- Witness (sig `c09:late-global-plugin-not-propagated`): in `lateOps` the global plugin `p5`
-    implements every stage and is on the global container, but for the handler inside the group
-    (route 0) its body-stage hook does not fire — and when `p5` is scripted to veto at
-    postReadCallBody (think: an authorisation plugin added with AppendRight), the handler is
-    invoked all the same and the caller gets OK. For the handler on the root router (route 1) the
-    same veto works. -/
-theorem C09_complete_witness :
-    ∃ P, build lateOps = some P ∧ (⟨5, 65535⟩ : Plugin) ∈ P.right ∧
-      (5, Stage.postReadCallBody) ∉ (callee P (fun _ _ => 0) 0 0).pre ∧
-      (callee P (fun n s => if n = 5 ∧ s = .postReadCallBody then 1509 else 0) 0 0).invoked = true ∧
-      (callee P (fun n s => if n = 5 ∧ s = .postReadCallBody then 1509 else 0) 0 0).reply = some 0 ∧
-      (callee P (fun n s => if n = 5 ∧ s = .postReadCallBody then 1509 else 0) 1 0).invoked = false ∧
-      (callee P (fun n s => if n = 5 ∧ s = .postReadCallBody then 1509 else 0) 1 0).reply = some 1509 := by
-  refine ⟨_, rfl, ?_, ?_, ?_, ?_, ?_, ?_⟩ <;> decide
+/-- non-vacuity of `C09_complete`, on `lateOps`: the global plugin `p5`, appended after the
+    handler inside the group was registered, is in the hypothesis' list for that handler. -/
+example : ∃ P, build lateOps = some P ∧ getCall P 0 = some 2 ∧
+    (⟨5, 65535⟩ : Plugin) ∈ P.left ++ (contAt P 2).chain ++ P.right ∧
+    (⟨5, 65535⟩ : Plugin).impl .postReadCallBody = true := by
+  refine ⟨_, rfl, rfl, ?_, ?_⟩ <;> decide
 
 /-! ### C09_veto -/
 
